@@ -332,34 +332,38 @@ theorem gmeOverlapCP_eq (dims : List Nat) (rank cp : Nat) (S X coeff : Nat → R
   rw [Finset.sum_comm]
   refine Finset.sum_congr rfl fun j _ => Finset.sum_congr rfl fun c _ => by ring
 
-/-- **[target, not proved in general] the normalisation contraction `contract_psi_psi` is the squared norm of the canonical-polyadic vector**,
-for every dimension list (needs the exchange of the product over parties with the sum over multi-indices, as in `sum_rowVec_sq`);
-probed (`model-gme:cp-normalisation`: the vectors returned by `get_state()` have unit norm to 1e-9) and tied exactly (`cpnorm`). -/
-def cpNormSq_eq_norm.Statement : Prop :=
-  ∀ (dims : List Nat) (cp : Nat) (coeff : Nat → ℂ) (psi : Nat → Nat → ℂ) (al : Nat), (∀ t, star (coeff t) = coeff t) →
+/-- **the normalisation contraction `contract_psi_psi` is the squared norm of the canonical-polyadic vector**, for every dimension list, every
+number of parties and every `CPrank` (the product over parties is exchanged with the sum over multi-indices: `sum_prod_unflat`).  The driver
+executes `cpNormSq` / `cpVec` for >= 2 parties (ops `cpnorm`, `gmeovcp`); additionally probed (`model-gme:cp-normalisation`: the vectors
+returned by `get_state()` have unit norm to 1e-9). -/
+theorem cpNormSq_eq_norm (dims : List Nat) (cp : Nat) (coeff : Nat → ℂ) (psi : Nat → Nat → ℂ) (al : Nat) (hc : ∀ t, star (coeff t) = coeff t) :
     cpNormSq dims cp coeff psi (fun x t => star (psi x t)) al
-      = sumRange (prodL dims) fun k => cpVec dims cp coeff psi al k * star (cpVec dims cp coeff psi al k)
-
-/-- the one-party case of `cpNormSq_eq_norm.Statement` -/
-theorem cpNormSq_eq_norm_partial (d cp : Nat) (coeff : Nat → ℂ) (psi : Nat → Nat → ℂ) (al : Nat) (hc : ∀ t, star (coeff t) = coeff t) :
-    cpNormSq [d] cp coeff psi (fun x t => star (psi x t)) al
-      = sumRange (prodL [d]) fun k => cpVec [d] cp coeff psi al k * star (cpVec [d] cp coeff psi al k) := by
-  simp only [cpNormSq, cpVec, sumRange_eq_sum, List.length_singleton, List.range_one, List.foldl_cons, List.foldl_nil, one_mul,
-    List.getD_cons_zero, prodL, mul_one, unflat, Nat.div_one, star_sum, star_mul', hc]
-  have hr : ∀ k ∈ Finset.range d,
-      (∑ c ∈ Finset.range cp, coeff (al * cp + c) * psi 0 ((al * cp + c) * d + k))
-        * (∑ c' ∈ Finset.range cp, coeff (al * cp + c') * star (psi 0 ((al * cp + c') * d + k)))
-      = ∑ c ∈ Finset.range cp, ∑ c' ∈ Finset.range cp,
-          coeff (al * cp + c) * coeff (al * cp + c') * (psi 0 ((al * cp + c) * d + k) * star (psi 0 ((al * cp + c') * d + k))) := by
+      = sumRange (prodL dims) fun k => cpVec dims cp coeff psi al k * star (cpVec dims cp coeff psi al k) := by
+  simp only [cpNormSq, cpVec, sumRange_eq_sum, foldl_range_mul, star_sum, star_mul', hc, star_prod]
+  have hr : ∀ k ∈ Finset.range (prodL dims),
+      (∑ c ∈ Finset.range cp, coeff (al * cp + c) * ∏ x ∈ Finset.range dims.length, psi x ((al * cp + c) * dims.getD x 1 + (unflat dims k).getD x 0))
+        * (∑ c' ∈ Finset.range cp, coeff (al * cp + c') * ∏ x ∈ Finset.range dims.length, star (psi x ((al * cp + c') * dims.getD x 1 + (unflat dims k).getD x 0)))
+      = ∑ c ∈ Finset.range cp, ∑ c' ∈ Finset.range cp, coeff (al * cp + c) * coeff (al * cp + c') *
+          ∏ x ∈ Finset.range dims.length, (psi x ((al * cp + c) * dims.getD x 1 + (unflat dims k).getD x 0)
+            * star (psi x ((al * cp + c') * dims.getD x 1 + (unflat dims k).getD x 0))) := by
     intro k _
     rw [Finset.sum_mul_sum]
-    refine Finset.sum_congr rfl fun c _ => Finset.sum_congr rfl fun c' _ => by ring
+    refine Finset.sum_congr rfl fun c _ => Finset.sum_congr rfl fun c' _ => ?_
+    rw [Finset.prod_mul_distrib]; ring
   rw [Finset.sum_congr rfl hr]
   conv_rhs => rw [Finset.sum_comm]
   refine Finset.sum_congr rfl fun c _ => ?_
   rw [Finset.sum_comm]
   refine Finset.sum_congr rfl fun c' _ => ?_
-  rw [Finset.mul_sum]
+  rw [← Finset.mul_sum]
+  congr 1
+  exact (sum_prod_unflat dims (fun x i => psi x ((al * cp + c) * dims.getD x 1 + i) * star (psi x ((al * cp + c') * dims.getD x 1 + i)))).symm
+
+/-- the executed two-party instance (`dims = [dA, dB]`, the smallest the driver accepts) -/
+theorem cpNormSq_eq_norm_two_party (dA dB cp : Nat) (coeff : Nat → ℂ) (psi : Nat → Nat → ℂ) (al : Nat) (hc : ∀ t, star (coeff t) = coeff t) :
+    cpNormSq [dA, dB] cp coeff psi (fun x t => star (psi x t)) al
+      = sumRange (dA * dB) fun k => cpVec [dA, dB] cp coeff psi al k * star (cpVec [dA, dB] cp coeff psi al k) := by
+  rw [cpNormSq_eq_norm [dA, dB] cp coeff psi al hc]; simp [prodL]
 
 /-- **`_sqrt_rho` is a square root of the truncated spectral sum**: if `S[k,j] = v[k,j]·s_j` with real scales `s_j·s_j = λ_j`
 (`sqrtRhoScale`, theorem `sqrtRhoScale_sq` in `DecisionC13.lean`) then `Σ_j S[k,j] conj S[k',j] = Σ_j λ_j v[k,j] conj v[k',j]` — the hypothesis
